@@ -21,6 +21,7 @@ RULE = ('A scenario picks one target - a built-in algorithm (FedAvg, FedProx, Mi
 DISTINCT_MEASURE = 'distinct (target, backend class, op-kind sequence) hashes'
 PROBES = ('retry_after_other_calls', 'branch_from_old_state', 'restart_then_continue', 'same_client_twice_in_history',
           'apfl_client_table_nonempty_at_retry', 'hyp_cluster_empty_cluster', 'aggregator_history', 'non_jit_backend',
+          'replica_with_fresh_objects',
           'dropout_client')
 ASSUMPTIONS = [
     'batch hparams always carry a fixed seed: with seed=None the library legitimately re-randomises batch order per call',
@@ -73,7 +74,7 @@ def generate(seed, tier):
       continue
     cohort = o.sample(range(n_clients), o.randint(1, min(5, n_clients)))
     drop = [c for c in cohort if o.chance(0.12)]
-    sc['ops'].append([k, o.randint(0, n_nodes - 1), cohort, o.randint(0, 2**30), drop])
+    sc['ops'].append([k, o.randint(0, n_nodes - 1), cohort, o.randint(0, 2**30), drop, o.chance(0.25)])
     n_nodes += 1
     n_applies += 1
   return sc
@@ -240,7 +241,8 @@ def execute(sc):
       elif fedsim.tree_bits(res[1]) != aux_bits:
         violation('purity', f'P1:retry-returns-different-diagnostics:{tname}', f'{label}: apply#{k} repeated at op#{oi}')
       continue
-    _, ni, cohort, key_seed, drop = op
+    _, ni, cohort, key_seed, drop = op[:5]
+    replica = len(op) > 5 and op[5]
     ni = ni % len(nodes)
     cohort = [c for c in cohort if c < sc['n_clients']] or [0]
     drop = [c for c in drop if c in cohort]
@@ -260,6 +262,19 @@ def execute(sc):
         break
       used[ni] = used.get(ni, 0) + 1
       applies.append((ni, cohort, key_seed, drop, fedsim.tree_bits(res[0]), fedsim.tree_bits(res[1])))
+      if replica:
+        # the same call made by freshly built objects on a serialised copy of the state: anything the long-lived
+        # objects remember from earlier calls (closure / module caches) shows up as a difference
+        import pickle
+        probes.inc('replica_with_fresh_objects')
+        nodes.append(pickle.loads(pickle.dumps(nodes[ni])))
+        r2 = do_apply(fresh(), len(nodes) - 1, cohort, key_seed, drop, f'op#{oi} replica with fresh objects')
+        nodes.pop()
+        if r2 is not None:
+          d = _close(r2[0], res[0], 1e-6) or _close(r2[1], res[1], 1e-6)
+          if d:
+            violation('purity', f'P3:result-depends-on-history-of-the-algorithm-object:{tname}',
+                      f'{label}: op#{oi} state#{ni} + cohort {cohort}: long-lived objects and fresh objects disagree: {d}')
       nodes.append(res[0])
       if tname == 'hyp':
         cids = [int(np.asarray(v['cluster_id'])) for v in res[1].values()]
@@ -326,9 +341,9 @@ def _simplify(sc):
   for i, op in enumerate(sc['ops']):
     if op[0] != 'retry' and len(op[2]) > 1:
       for j in range(len(op[2])):
-        yield dict(sc, ops=sc['ops'][:i] + [[op[0], op[1], op[2][:j] + op[2][j + 1:], op[3], op[4]]] + sc['ops'][i + 1:])
+        yield dict(sc, ops=sc['ops'][:i] + [[op[0], op[1], op[2][:j] + op[2][j + 1:], op[3], op[4]] + op[5:]] + sc['ops'][i + 1:])
     if op[0] != 'retry' and op[4]:
-      yield dict(sc, ops=sc['ops'][:i] + [[op[0], op[1], op[2], op[3], []]] + sc['ops'][i + 1:])
+      yield dict(sc, ops=sc['ops'][:i] + [[op[0], op[1], op[2], op[3], []] + op[5:]] + sc['ops'][i + 1:])
 
 
 SHRINK = {'list_keys': ('ops',), 'simplifiers': (_simplify,)}
